@@ -55,6 +55,10 @@ type Case struct {
 	// while the client allows every version (otherwise by the client's MaxVersion), so that the
 	// ClientHello's legacy version differs from the negotiated one.
 	ServerCaps bool `json:"server_caps,omitempty"`
+	// PerConn: the server Config has a GetConfigForClient callback that returns a new Config for
+	// every connection, without ticket keys of its own: documented to use the keys of the original
+	// Config ("Otherwise, the original Config keys will be used"), so the model is unchanged.
+	PerConn bool `json:"per_conn,omitempty"`
 }
 
 const (
@@ -148,14 +152,31 @@ func keyBytes(ids []int) [][32]byte {
 }
 
 func (w *world) serverConfig(foreign bool) *tls.Config {
-	sv := tlsgen.Server{Key: w.c.SKey}
-	cfg := sv.Config()
-	cfg.Time = w.now
-	if w.c.ServerCaps && w.c.Version != tlsgen.TLS13 {
-		cfg.MaxVersion = w.c.Version
+	base := func() *tls.Config {
+		sv := tlsgen.Server{Key: w.c.SKey}
+		cfg := sv.Config()
+		cfg.Time = w.now
+		if w.c.ServerCaps && w.c.Version != tlsgen.TLS13 {
+			cfg.MaxVersion = w.c.Version
+		}
+		if w.c.Version != tlsgen.TLS13 {
+			cfg.CipherSuites = []uint16{w.c.Suite, altSuite(w.c.Suite), fallbackSuite(w.c.Suite)}
+		}
+		return cfg
 	}
-	if w.c.Version != tlsgen.TLS13 {
-		cfg.CipherSuites = []uint16{w.c.Suite, altSuite(w.c.Suite), fallbackSuite(w.c.Suite)}
+	cfg := base()
+	if w.c.PerConn && !foreign {
+		var n uint64
+		var mu sync.Mutex
+		cfg.GetConfigForClient = func(*tls.ClientHelloInfo) (*tls.Config, error) {
+			mu.Lock()
+			n++
+			k := n
+			mu.Unlock()
+			pc := base() // no ticket keys of its own
+			pc.Rand = tlsgen.NewRand(w.c.Seed, 4, k)
+			return pc, nil
+		}
 	}
 	if foreign {
 		cfg.SetSessionTicketKeys(keyBytes([]int{foreignK}))
@@ -333,6 +354,9 @@ func check(c Case, r *kit.R) {
 	w := &world{c: c, r: r, cache: newCache()}
 	w.sc = w.serverConfig(false)
 	r.Class(fmt.Sprintf("v=%x keys=%s", c.Version, c.KeyMode))
+	if c.PerConn {
+		r.Class("per-connection config (GetConfigForClient)")
+	}
 
 	// ---- initial full handshake ---------------------------------------------
 	out := handshake(w.clientConfig(w.cache, false, false), w.sc)
@@ -708,6 +732,7 @@ func gen(t *rapid.T) Case {
 		c.ServerCaps = rapid.IntRange(0, 2).Draw(t, "server-caps") == 0
 	}
 	c.KeyMode = rapid.SampledFrom([]string{"explicit", "explicit", "legacy", "auto"}).Draw(t, "keymode")
+	c.PerConn = rapid.IntRange(0, 3).Draw(t, "per-conn") == 0
 	switch c.KeyMode {
 	case "explicit":
 		c.InitKeys = genKeys(t, "init", nil)
@@ -740,5 +765,5 @@ func gen(t *rapid.T) Case {
 
 func TestPropHistories(t *testing.T) {
 	kit.Run(t, kit.Spec[Case]{ID: "C31", Name: "histories", Check: check, Gen: gen, Quick: 2000, Thorough: 30000,
-		Rule: "histories: server ticket keys explicit (SetSessionTicketKeys, 1-4 keys) / legacy SessionTicketKey / automatic; initial full handshake at TLS 1.0-1.3; then 1-3 rounds of up to 3 operations {rotate keys (keep / drop / reorder / append), advance both clocks (1h..8d), edit the cached ticket, splice in a foreign server's ticket / key name / whole session, splice in another session's ticket / whole session from the same server, stop offering the session's suite, lower the client's maximum version} followed by a handshake, compared with a model of which ticket the cache holds, which key issued it and which keys the server currently has. Non-trivial: history with an edited, spliced or rotated ticket; distinct by case hash"})
+		Rule: "histories: server ticket keys explicit (SetSessionTicketKeys, 1-4 keys) / legacy SessionTicketKey / automatic, the Config used directly or (1 in 4) through a GetConfigForClient callback that returns a key-less Config per connection; initial full handshake at TLS 1.0-1.3; then 1-3 rounds of up to 3 operations {rotate keys (keep / drop / reorder / append), advance both clocks (1h..8d), edit the cached ticket, splice in a foreign server's ticket / key name / whole session, splice in another session's ticket / whole session from the same server, stop offering the session's suite, lower the client's maximum version} followed by a handshake, compared with a model of which ticket the cache holds, which key issued it and which keys the server currently has. Non-trivial: history with an edited, spliced or rotated ticket; distinct by case hash"})
 }
